@@ -39,6 +39,9 @@ func init() {
 }
 
 func runC09(r *Report) {
+	// the in-memory backend installs the new deadline when a record is written again (R-C09-2:
+	// a re-registered waiting tunnel lives for its ttl from the last registration)
+	checkValueExpiryTogether(r, "R-C09-2")
 	// ---- R-C09-1 record fidelity ------------------------------------------------
 	pk := r.P.ByPath[Module+"/"+tunPkg]
 	if pk == nil {
